@@ -4,12 +4,12 @@ set_option linter.unusedVariables false
 namespace Lemmas
 open Gen.Bumping Rs C11
 
-set_option profiler true in
-theorem bump_prepare_up_ok (p : BumpProps) (h : Valid true p) :
-    bump_prepare_up p = .ok (Spec.prepareUp p.start p.«end» p.layout.size p.layout.align) := by
+/- common set-up -/
+set_option hygiene false in
+local macro "bump_up_setup" : tactic => `(tactic| (
   have hdav := debug_assert_valid_eq h
   have hf := Valid.facts h
-  unfold bump_prepare_up
+  unfold bump_up
   rw [mca, hdav]
   simp only [ok_bind]
   obtain ⟨s, e, m, ⟨sz, a⟩, aic, sic, smoa⟩ := p
@@ -17,19 +17,7 @@ theorem bump_prepare_up_ok (p : BumpProps) (h : Valid true p) :
   clear hdav h
   obtain ⟨hm, hm16, hm16d, ha, ha64, hap, hmp, hs0, he0, hs64, he64, hsz, htr, h16, hr⟩ := hf
   simp only [↓reduceIte] at hr
-  have hE1 := downAlign_dvd e a
-  have hE2 := downAlign_le e a
-  have hE3 := lt_downAlign_add e hap
-  have hS1 := upAlign_dvd s a
-  have hS2 := le_upAlign s hap
-  have hS3 := upAlign_lt s hap
-  have hS4 : ∀ q, a ∣ q → s ≤ q → Spec.upAlign s a ≤ q := fun q h1 h2 => upAlign_le_of_dvd hap h1 h2
-  have hE4 : ∀ q, a ∣ q → q ≤ e → q ≤ Spec.downAlign e a := fun q h1 h2 => le_downAlign_of_dvd hap h1 h2
-  have hE64 : Spec.downAlign e a + a ≤ 2 ^ 64 :=
-    add_le_of_dvd_of_lt hE1 (ha.dvd_two_pow_64 ha64) (by omega)
-  unfold Spec.prepareUp
-  simp only []
-  -- the upper bound `2^64 - 16` of both range ends
+  unfold Spec.bumpUp
   have he16 : 16 ∣ e := by
     rcases hr with ⟨_, _, _, h⟩ | ⟨_, h, _⟩ <;> exact h
   have heM : e + 16 ≤ 2 ^ 64 := add_le_of_dvd_of_lt he16 ⟨2 ^ 60, by decide⟩ he64
@@ -37,79 +25,125 @@ theorem bump_prepare_up_ok (p : BumpProps) (h : Valid true p) :
     rcases hr with ⟨_, _, _, _⟩ | ⟨_, _, h⟩
     · omega
     · exact add_le_of_dvd_of_lt h ⟨2 ^ 60, by decide⟩ hs64
-  by_cases c1 : (aic && decide (a ≤ m)) = true
-  · simp only [c1, ↓reduceIte]
-    simp only [Bool.and_eq_true, decide_eq_true_eq] at c1
-    have has : a ∣ s := by
-      rcases hr with ⟨_, _, h, _⟩ | ⟨_, _, h⟩
-      · exact Nat.dvd_trans (ha.dvd_of_le hm c1.2) h
-      · exact Nat.dvd_trans (Nat.dvd_trans (ha.dvd_of_le hm c1.2) hm16d) h
-    have hSs := upAlign_eq_self hap has
-    rw [hSs] at hS1 hS2 hS3 hS4 ⊢
-    generalize hE : Spec.downAlign e a = E at *
-    rcases hr with ⟨h1, h2, h3, h4⟩ | ⟨h1, h2, h3⟩
-    · by_cases hcmp : (sz : Int) > ((e - s : Nat) : Int)
-      · have : ¬ (s + sz ≤ e) := by omega
-        rs_simp
-        simp only [hcmp, this, ↓reduceIte]
-      · have : s + sz ≤ e := by omega
-        have := hE4 s has h1
-        rs_simp
-        simp only [hcmp, ‹s + sz ≤ e›, ↓reduceIte]
-    · subst h1
-      have : ¬ (e + 16 + sz ≤ e) := by omega
-      have h5 : (sz : Int) > -16 := by omega
-      rs_simp
-      simp only [this, h5, ↓reduceIte]
-  · simp only [c1, ↓reduceIte]
-    by_cases c2 : (aic && decide (a ≤ 16)) = true
-    · simp only [c2, ↓reduceIte]
-      simp only [Bool.and_eq_true, decide_eq_true_eq] at c2
-      have ha16 : a ∣ 16 := ha.dvd_of_le h16 c2.2
-      rs_simp
-      rcases hr with ⟨h1, h2, h3, h4⟩ | ⟨h1, h2, h3⟩
-      · have hSe : Spec.upAlign s a ≤ e := hS4 e (Nat.dvd_trans ha16 h4) h1
-        have hSE := hE4 _ hS1 hSe
-        generalize hS : Spec.upAlign s a = S at *
-        generalize hE : Spec.downAlign e a = E at *
-        by_cases hcmp : (sz : Int) > ((e - S : Nat) : Int)
-        · have : ¬ (S + sz ≤ e) := by omega
-          rs_simp
-          simp only [hcmp, this, ↓reduceIte]
-        · have : S + sz ≤ e := by omega
-          rs_simp
-          simp only [hcmp, ‹S + sz ≤ e›, ↓reduceIte]
-      · have hSs := upAlign_eq_self hap (Nat.dvd_trans ha16 h3)
-        rw [hSs] at hS1 hS2 hS3 hS4 ⊢
-        subst h1
-        have : ¬ (e + 16 + sz ≤ e) := by omega
-        have h5 : (sz : Int) > -16 := by omega
-        rs_simp
-        simp only [this, h5, ↓reduceIte]
-    · simp only [c2, ↓reduceIte]
-      by_cases hov : s + (a - 1) < 2 ^ 64
-      · rw [up_align_eq_some ha ha64 hs0 hov]
-        simp only [ok_bind]
-        by_cases c3 : Spec.upAlign s a > e
-        · have : ¬ (Spec.upAlign s a + sz ≤ e) := by omega
-          simp only [c3, this, ↓reduceIte, decide_true, pure_eq_ok]
-        · have hSe : Spec.upAlign s a ≤ e := by omega
-          have hSE := hE4 _ hS1 hSe
-          generalize hS : Spec.upAlign s a = S at *
-          generalize hE : Spec.downAlign e a = E at *
-          have hcap : e - S < 2 ^ 63 := by
-            rcases hr with ⟨h1, h2, h3, h4⟩ | ⟨h1, h2, h3⟩ <;> omega
-          simp only [c3, ↓reduceIte, decide_false, Bool.false_eq_true]
-          by_cases hcmp : (sz : Int) > ((e - S : Nat) : Int)
-          · have : ¬ (S + sz ≤ e) := by omega
-            rs_simp
-            simp only [hcmp, this, ↓reduceIte]
-          · have : S + sz ≤ e := by omega
-            rs_simp
-            simp only [hcmp, ‹S + sz ≤ e›, ↓reduceIte]
-      · have hov' : 2 ^ 64 ≤ s + (a - 1) := by omega
-        rw [up_align_eq_none ha hov']
-        have := upAlign_ge_of_overflow ha ha64 hov'
-        have : ¬ (Spec.upAlign s a + sz ≤ e) := by omega
-        simp only [ok_bind, this, ↓reduceIte, pure_eq_ok]
+  have hme : m ∣ e := Nat.dvd_trans hm16d he16
+  have hms : m ∣ s := by
+    rcases hr with ⟨_, _, h, _⟩ | ⟨_, _, h⟩
+    · exact h
+    · exact Nat.dvd_trans hm16d h
+  have hS1 := upAlign_dvd s a
+  have hS2 := le_upAlign s hap
+  have hS3 := upAlign_lt s hap
+  have hS4 : ∀ q, a ∣ q → s ≤ q → Spec.upAlign s a ≤ q := fun q h1 h2 => upAlign_le_of_dvd hap h1 h2
+  have hSm : m ∣ Spec.upAlign s a := hm.dvd_upAlign ha hms
+  have hUle : ∀ x, x ≤ e → Spec.upAlign x m ≤ e := fun x hx => upAlign_le_of_dvd hmp hme hx
+  have hUge : ∀ x, x ≤ Spec.upAlign x m := fun x => le_upAlign x hmp
+  have hUd : ∀ x, m ∣ Spec.upAlign x m := fun x => upAlign_dvd x m))
+
+/- final evaluation of one path -/
+syntax "bump_up_leaf" " [" Lean.Parser.Tactic.simpLemma,* "]" : tactic
+macro_rules
+  | `(tactic| bump_up_leaf [$ls,*]) =>
+    `(tactic| rs_simp [assert_band_add, upAlign_add_self, Option.map_some, Option.map_none, $ls,*])
+
+/- fast path (`align ≤ 16` known at compile time), for the block address `X` -/
+set_option hygiene false in
+local macro "bump_up_fast_true" X:term : tactic => `(tactic| (
+  rcases hr with ⟨h1, h2, h3, h4⟩ | ⟨h1, h2, h3⟩
+  · have hXe : $X ≤ e := hS4 e (Nat.dvd_trans ha16 he16) h1
+    by_cases b1 : sz < 16
+    · by_cases hlt : e < $X + sz
+      · have hfit : ¬ ($X + sz ≤ e) := by omega
+        bump_up_leaf [b1, hlt, hfit]
+      · have hfit : $X + sz ≤ e := by omega
+        have hU1 := hUd ($X + sz)
+        have hU2 := hUge ($X + sz)
+        have hU3 := hUle _ hfit
+        bump_up_leaf [b1, hlt, hfit]
+    · by_cases hcmp : (sz : Int) > ((e - $X : Nat) : Int)
+      · have hfit : ¬ ($X + sz ≤ e) := by omega
+        bump_up_leaf [b1, hcmp, hfit]
+      · have hfit : $X + sz ≤ e := by omega
+        have hU1 := hUd ($X + sz)
+        have hU2 := hUge ($X + sz)
+        have hU3 := hUle _ hfit
+        bump_up_leaf [b1, hcmp, hfit]
+  · have hXs : $X = s := hXd h3
+    have hrem : as_isize (wrapping_sub e $X) = -16 := by
+      rw [hXs, h1]; exact remaining_dummy (by omega)
+    have hfit : ¬ ($X + sz ≤ e) := by omega
+    by_cases b1 : sz < 16
+    · have hlt : e < $X + sz := by omega
+      bump_up_leaf [b1, hlt, hfit]
+    · have h5 : (sz : Int) > -16 := by omega
+      bump_up_leaf [b1, hrem, h5, hfit]))
+
+/- generic path -/
+set_option hygiene false in
+local macro "bump_up_generic" : tactic => `(tactic| (
+  have hs1 : s - 1 < 2 ^ 64 := by omega
+  have hband : band (s - 1) (bnot (a - 1)) = Spec.downAlign (s - 1) a := ha.band_bnot ha64 hs1
+  have hadd := downAlign_pred_add hs0 hap
+  have hasz : a + sz < 2 ^ 64 := by omega
+  by_cases hsat : Spec.upAlign s a + sz < 2 ^ 64
+  · have hsat' : saturating_add (Spec.downAlign (s - 1) a) (a + sz) = Spec.upAlign s a + sz := by
+      rw [saturating_add_ok (by omega)]; omega
+    by_cases hgt : Spec.upAlign s a + sz > e
+    · have hfit : ¬ (Spec.upAlign s a + sz ≤ e) := by omega
+      bump_up_leaf [hband, hsat', hgt, hfit]
+    · have hfit : Spec.upAlign s a + sz ≤ e := by omega
+      have hU1 := hUd (Spec.upAlign s a + sz)
+      have hU2 := hUge (Spec.upAlign s a + sz)
+      have hU3 := hUle _ hfit
+      bump_up_leaf [hband, hsat', hadd, hgt, hfit]
+  · have hsat' : saturating_add (Spec.downAlign (s - 1) a) (a + sz) = Rs.MAX :=
+      saturating_add_sat (by omega)
+    have hgt : Rs.MAX > e := by rw [MAX_eq]; omega
+    have hfit : ¬ (Spec.upAlign s a + sz ≤ e) := by omega
+    bump_up_leaf [hband, hsat', hgt, hfit]))
+
+/- the three ways of computing the block address, `size_is_const = true` -/
+set_option hygiene false in
+local macro "bump_up_phase1_true" : tactic => `(tactic| (
+  by_cases b0 : (aic && decide (a ≤ 16)) = true
+  · simp only [b0, ↓reduceIte]
+    simp only [Bool.and_eq_true, decide_eq_true_eq] at b0
+    have ha16 : a ∣ 16 := ha.dvd_of_le h16 b0.2
+    by_cases bam : a ≤ m
+    · have has : a ∣ s := Nat.dvd_trans (ha.dvd_of_le hm bam) hms
+      have hSs := upAlign_eq_self hap has
+      rw [hSs] at hS1 hS2 hS3 hS4 hSm ⊢
+      simp only [bam, decide_true, ↓reduceIte]
+      have hXd : 16 ∣ s → s = s := fun _ => rfl
+      bump_up_fast_true s
+    · simp only [bam, decide_false, ↓reduceIte, Bool.false_eq_true]
+      have hov : s + (a - 1) < 2 ^ 64 := by omega
+      simp only [up_align_unchecked_eq ha ha64 hov, ok_bind]
+      have hXd : 16 ∣ s → Spec.upAlign s a = s := fun h => upAlign_eq_self hap (Nat.dvd_trans ha16 h)
+      bump_up_fast_true (Spec.upAlign s a)
+  · simp only [b0, ↓reduceIte, Bool.false_eq_true]
+    bump_up_generic))
+
+set_option profiler true in
+set_option maxHeartbeats 4000000 in
+theorem bump_up_ok_true (p : BumpProps) (h : Valid true p) (hsic : p.size_is_const = true) :
+    bump_up p = .ok ((Spec.bumpUp p.start p.«end» p.layout.size p.layout.align p.min_align).map
+      fun r => { new_pos := r.2, ptr := r.1 }) := by
+  bump_up_setup
+  simp only at hsic
+  subst hsic
+  simp only [↓reduceIte, Bool.true_and]
+  by_cases c7 : (!(aic && smoa && decide (a ≥ m))) = true
+  · simp only [c7, ↓reduceIte]
+    have hm0 : m ≠ 0 := by omega
+    simp only [rem_ok hm0, ok_bind]
+    by_cases hz : sz % m = 0
+    · have hmsz : m ∣ sz := Nat.dvd_of_mod_eq_zero hz
+      simp only [hz, ↓reduceIte, decide_true]
+      bump_up_phase1_true
+    · simp only [hz, ↓reduceIte, decide_false, Bool.false_eq_true]
+      bump_up_phase1_true
+  · simp only [c7, ↓reduceIte, Bool.false_eq_true]
+    simp only [Bool.not_eq_true', Bool.not_eq_false, Bool.and_eq_true, decide_eq_true_eq] at c7
+    have hmsz : m ∣ sz := Nat.dvd_trans (hm.dvd_of_le ha c7.2) (htr c7.1.2)
+    bump_up_phase1_true
 end Lemmas
